@@ -207,15 +207,20 @@ func (l *Lab) poolIDs() (ids []types.TransactionID) {
 	return
 }
 
-// Mine mines one block on the tip (payout to addr), adds it, drives the wallet
-// store to the new tip the way the repository's tests do, and records the
-// block's siacoin element diffs (taken from core's ApplyUpdate, the trusted
-// base) plus the pool contents afterwards.
-func (l *Lab) Mine(rc *Rec, addr types.Address) (*Event, error) {
+// Mine mines one block on the tip (payout to addr) and adds it to the chain
+// manager. With deliver the wallet store is then driven to the new tip the way
+// the repository's tests do (this also delivers blocks left pending earlier);
+// without it the block stays PENDING: the manager (and its pool) know it, the
+// wallet's index lags behind until Deliver is called. The event records the
+// block's siacoin element diffs (from core's ApplyUpdate, the trusted base),
+// the pool contents afterwards and which heights reached the wallet store.
+func (l *Lab) Mine(rc *Rec, addr types.Address, deliver bool) (*Event, error) {
 	var err error
 	var aus []chain.ApplyUpdate
 	var pool []types.TransactionID
+	var from, to uint64
 	ev := rc.do(Event{Op: OpBlock}, func() {
+		prev := l.CM.Tip()
 		b, ok := coreutils.MineBlock(l.CM, addr, 60*time.Second)
 		if !ok {
 			err = errors.New("no nonce found")
@@ -224,7 +229,12 @@ func (l *Lab) Mine(rc *Rec, addr types.Address) (*Event, error) {
 		if err = l.CM.AddBlocks([]types.Block{b}); err != nil {
 			return
 		}
-		aus, err = l.syncWallet()
+		if _, aus, err = l.CM.UpdatesSince(prev, 4); err != nil {
+			return
+		}
+		if deliver {
+			from, to, err = l.syncWallet(0)
+		}
 		pool = l.poolIDs()
 	}, func(ev *Event) {
 		for _, au := range aus {
@@ -240,9 +250,13 @@ func (l *Lab) Mine(rc *Rec, addr types.Address) (*Event, error) {
 			}
 		}
 		ev.Pool = pool
+		ev.From, ev.To = from, to
 	})
 	if err == nil && ev.Panic != "" {
 		err = errors.New("panic while mining: " + ev.Panic)
+	}
+	if err == nil && len(aus) != 1 {
+		err = fmt.Errorf("expected one applied update for the mined block, got %d", len(aus))
 	}
 	ev.Err = errStr(err)
 	ev.OK = err == nil
@@ -250,28 +264,63 @@ func (l *Lab) Mine(rc *Rec, addr types.Address) (*Event, error) {
 	return ev, err
 }
 
-func (l *Lab) syncWallet() (all []chain.ApplyUpdate, err error) {
+// Deliver applies up to k pending blocks (k <= 0: all of them) to the wallet
+// store through UpdateChainState.
+func (l *Lab) Deliver(rc *Rec, k int) (*Event, error) {
+	var err error
+	var from, to uint64
+	ev := rc.do(Event{Op: OpDeliver, N: k}, func() {
+		from, to, err = l.syncWallet(k)
+	}, func(ev *Event) { ev.From, ev.To = from, to })
+	if err == nil && ev.Panic != "" {
+		err = errors.New("panic while delivering chain updates: " + ev.Panic)
+	}
+	ev.Err = errStr(err)
+	ev.OK = err == nil
+	return ev, err
+}
+
+// Pending returns how many blocks the wallet store lags behind the manager.
+func (l *Lab) Pending() int {
+	tip, _ := l.WS.Tip()
+	return int(l.CM.Tip().Height - tip.Height)
+}
+
+// syncWallet delivers up to max blocks (max <= 0: all) to the wallet store and
+// returns the range of heights delivered (0, 0 if none).
+func (l *Lab) syncWallet(max int) (from, to uint64, err error) {
+	delivered := 0
 	for {
 		tip, err := l.WS.Tip()
 		if err != nil {
-			return all, err
+			return from, to, err
 		} else if tip == l.CM.Tip() {
-			return all, nil
+			return from, to, nil
 		}
-		reverted, applied, err := l.CM.UpdatesSince(tip, 100)
+		n := 100
+		if max > 0 {
+			if n = max - delivered; n <= 0 {
+				return from, to, nil
+			}
+		}
+		reverted, applied, err := l.CM.UpdatesSince(tip, n)
 		if err != nil {
-			return all, err
+			return from, to, err
 		}
-		if len(reverted) != 0 {
-			return all, errors.New("unexpected reorg in wallet lab")
+		if len(reverted) != 0 || len(applied) == 0 {
+			return from, to, errors.New("unexpected reorg in wallet lab")
 		}
 		err = l.WS.UpdateChainState(func(tx wallet.UpdateTx) error {
 			return l.W.UpdateChainState(tx, reverted, applied)
 		})
 		if err != nil {
-			return all, err
+			return from, to, err
 		}
-		all = append(all, applied...)
+		if from == 0 {
+			from = applied[0].State.Index.Height
+		}
+		to = applied[len(applied)-1].State.Index.Height
+		delivered += len(applied)
 	}
 }
 
@@ -369,6 +418,44 @@ func (l *Lab) changeRecs(outs []types.SiacoinOutput, structural *[]string) (vals
 	return
 }
 
+// checkProofs verifies oracle (a) of the lagging-wallet dimension: every
+// non-ephemeral input of txns carries a (leaf index, proof) that verifies
+// against the element accumulator of the basis the call returned. It also
+// notes whether the same inputs would NOT verify against the manager's tip,
+// i.e. whether returning the wrong index would have been visible.
+func (l *Lab) checkProofs(cm *chain.Manager, ev *Event, basis types.ChainIndex, txns []types.V2Transaction, st *[]string) {
+	n := 0
+	for _, t := range txns {
+		for _, in := range t.SiacoinInputs {
+			if in.Parent.StateElement.LeafIndex != types.UnassignedLeafIndex {
+				n++
+			}
+		}
+	}
+	if n == 0 {
+		return
+	}
+	ev.Proofs = n
+	cs, ok := cm.State(basis.ID)
+	if !ok || cs.Index != basis {
+		*st = append(*st, "returned basis is not an index of the chain")
+		return
+	}
+	for _, t := range txns {
+		if err := cs.Elements.ValidateTransactionElements(t); err != nil {
+			*st = append(*st, "input proof does not verify against the accumulator of the returned basis")
+			break
+		}
+	}
+	if tip := cm.TipState(); tip.Index != basis {
+		for _, t := range txns {
+			if tip.Elements.ValidateTransactionElements(t) != nil {
+				ev.StaleAtTip = true
+			}
+		}
+	}
+}
+
 // Fund1 calls FundTransaction on o.T1.
 func (l *Lab) Fund1(rc *Rec, o *Owned, amount types.Currency, unconf bool, probe string) *Event {
 	txn := &o.T1
@@ -426,7 +513,7 @@ func (l *Lab) Fund2(rc *Rec, o *Owned, amount types.Currency, unconf bool, probe
 	var toSign []int
 	var basis types.ChainIndex
 	var err error
-	w := l.W
+	w, cm := l.W, l.CM
 	return rc.do(Event{Op: OpFund2, H: o.H, Amount: amount, Unconf: unconf, PreIn: preIn, Probe: probe}, func() {
 		basis, toSign, err = w.FundV2Transaction(txn, amount, unconf)
 	}, func(ev *Event) {
@@ -464,6 +551,8 @@ func (l *Lab) Fund2(rc *Rec, o *Owned, amount types.Currency, unconf bool, probe
 		ev.Sel = [][]Sel{sel}
 		ev.Outs = [][]types.Currency{l.changeRecs(txn.SiacoinOutputs[preOut:], &st)}
 		ev.Basis = basis
+		added := types.V2Transaction{SiacoinInputs: txn.SiacoinInputs[preIn:]}
+		l.checkProofs(cm, ev, basis, []types.V2Transaction{added}, &st)
 		ev.Struct = st
 		if len(o.Sign2) == 0 {
 			o.Sign2 = [][]int{nil}
@@ -486,7 +575,7 @@ func (l *Lab) Redistribute(rc *Rec, outputs int, amount, feePerByte types.Curren
 	var toSign [][]int
 	var basis types.ChainIndex
 	var err error
-	w := l.W
+	w, cm := l.W, l.CM
 	o := &Owned{H: l.NewHandle(), V2: true}
 	ev := rc.do(Event{Op: OpRedist, H: o.H, Amount: amount, N: outputs, Fee: feePerByte}, func() {
 		basis, txns, toSign, err = w.Redistribute(outputs, amount, feePerByte)
@@ -520,6 +609,9 @@ func (l *Lab) Redistribute(rc *Rec, outputs int, amount, feePerByte types.Curren
 			ev.Fees = append(ev.Fees, t.MinerFee)
 		}
 		ev.Basis = basis
+		if len(txns) > 0 {
+			l.checkProofs(cm, ev, basis, txns, &st)
+		}
 		ev.Struct = st
 		o.T2, o.Sign2, o.Basis = txns, toSign, basis
 	})
